@@ -31,11 +31,23 @@ var c03BumpShapes = []string{
 }
 
 func legC03ScanModel(c *Ctx) {
-	c.Rule("patterns: the FindMode shapes of c03-accel x {LTR,RTL} x {code-gen analysis off,on}, bump-along shapes (leading unbounded loop, also inside atomic groups), random ASTs; inputs: near-misses of the pattern literals; per (pattern,input,start): the real finder answer and the real single-attempt answer (match, Runtextpos left) at EVERY position are recorded through the hooks; compared: Scan.scan and Scan.naive_scan of the Coq model over these tables vs the real search for previousMatchLength -1, 0, 1 (model leg 301), the match returned vs the match of the single attempt at its position, and the Coq checkers of hypotheses H1-H3 over the tables must all answer true (model leg 302); non-trivial = some accelerator moved (finder skipped or gave up, minimum-length cut, bump-along) and a match exists")
+	c.Rule("patterns: the FindMode shapes of c03-accel x {LTR,RTL} x {code-gen analysis off,on}, bump-along shapes (leading unbounded loop, also inside atomic groups), random ASTs; inputs: near-misses of the pattern literals; per (pattern,input,start): the real finder answer and the real single-attempt answer (match, Runtextpos left) at EVERY position are recorded through the hooks; compared: Scan.scan and Scan.naive_scan of the Coq model over these tables vs the real search for previousMatchLength -1, 0, 1 (model leg 301), the match returned vs the match of the single attempt at its position, and the Coq checkers of hypotheses H1-H3 over the tables must all answer true (model leg 302); for programs with a Beginning/Start/EndZ/End bit in Code.Anchors the model of findFirstCharDefault's anchor part must reproduce the real finder's (found, Runtextpos) at every position (model leg 303); non-trivial = some accelerator moved (finder skipped or gave up, minimum-length cut, bump-along) and a match exists")
 	pats := shapePatterns(c.Rng)
 	for _, s := range c03BumpShapes {
 		for _, cg := range []bool{false, true} {
 			pats = append(pats, patCase{pat: s, alpha: []rune{'a', 'b', 'c', 'd', 'x', '@', ',', ' ', '=', '\n'}, cg: cg})
+		}
+	}
+	// programs with a leading Beginning/Start/EndZ/End anchor in both directions (a right-to-left
+	// pattern's leading anchor is the one at its right end), with and without a Boyer-Moore prefix
+	for _, s := range []string{`\Aabc`, `\Aa`, `\Gab`, `\Gabc`, `\z`, `\Z`, `$`, `\A\z`, `\A\Z`, `(?=ab)\Aa`, `(?m)$`} {
+		for _, cg := range []bool{false, true} {
+			pats = append(pats, patCase{pat: s, alpha: []rune{'a', 'b', 'c', '\n'}, cg: cg})
+		}
+	}
+	for _, s := range []string{`abc\z`, `ab\Z`, `b$`, `\A`, `(?<=a)\A`, `b\G`, `abc\G`, `\z`, `\Z`, `\A\z`, `a\n?\Z`} {
+		for _, cg := range []bool{false, true} {
+			pats = append(pats, patCase{pat: s, o: Opts{RTL: true}, alpha: []rune{'a', 'b', 'c', '\n'}, cg: cg})
 		}
 	}
 	pats = append(pats, genPatterns(c.Rng, c.N(150, 4000), true)...)
@@ -69,7 +81,7 @@ func legC03ScanModel(c *Ctx) {
 			}
 		}
 	}
-	for _, g := range []string{"finder-skipped", "finder-gave-up", "finder-gave-up-not-at-far-end", "min-length-cut", "bump-along-moved", "rtl", "prevlen0-at-far-end", "match"} {
+	for _, g := range []string{"finder-skipped", "finder-gave-up", "finder-gave-up-not-at-far-end", "min-length-cut", "bump-along-moved", "rtl", "prevlen0-at-far-end", "match", "anchor-model", "anchor-model-with-bm"} {
 		c.Gate("scan-model event exercised: "+g, seen[g] > 0)
 	}
 	for k, v := range seen {
@@ -164,6 +176,29 @@ func c03OneStart(c *Ctx, p patCase, re *regexp2.Regexp, in []rune, start, minReq
 			enc = append(enc, -1, int64(ep))
 			etxt += fmt.Sprintf(" %d:fail@%d", q, endpos[q])
 		}
+	}
+	// the anchor part of findFirstCharDefault (Model/Scan.v ffc_default) against the real finder
+	code := re.VerifCode()
+	if an := int(code.Anchors); an&(1|4|16|32) != 0 {
+		in3 := encRunes(in)
+		in3 = append(in3, b2i(rtl), int64(an), int64(start), b2i(code.BmPrefix != nil), int64(n+1))
+		for q := 0; q <= n; q++ {
+			in3 = append(in3, b2i(code.BmPrefix != nil && code.BmPrefix.IsMatch(in, q, 0, n)))
+		}
+		in3 = append(in3, int64(n+1))
+		var out3 []int64
+		for q := 0; q <= n; q++ {
+			in3 = append(in3, b2i(!ft[q].cut))
+			if !ft[q].cut {
+				out3 = append(out3, b2i(ft[q].found), int64(ft[q].np))
+			}
+		}
+		seen["anchor-model"]++
+		if code.BmPrefix != nil {
+			seen["anchor-model-with-bm"]++
+		}
+		c.Add(&Case{Desc: fmt.Sprintf("pattern %q opts=%s cg=%v input %+q Runtextstart=%d Anchors=%#x bm=%v [findFirstCharDefault anchor part: (found, Runtextpos) at every position not cut by the minimum length]", p.pat, p.o, p.cg, string(in), start, an, code.BmPrefix != nil),
+			ModelLeg: 303, ModelIn: in3, ImplOut: out3, Nontrivial: moved, Class: "anchor-finder"})
 	}
 	base := fmt.Sprintf("pattern %q opts=%s cg=%v input %+q start=%d minlen=%d finder[pos:found@Runtextpos]:%s attempts[pos:result@Runtextpos]:%s", p.pat, p.o, p.cg, string(in), start, minReq, ftxt, etxt)
 	anyMatch := false
